@@ -10,6 +10,12 @@ use crate::{
     metadata::PutOptions,
 };
 
+/// Key prefix of the record an unfinished writer keeps of the chunks it has stored so far.
+///
+/// The artifact record only appears at `finish`; until then this record is what tells
+/// `full_gc` and `repair` that the chunks are in use.
+pub(crate) const WRITER_PREFIX: &str = "_blob:writer:";
+
 /// Internal state shared between `BlobWriter` and the store.
 pub struct WriteState {
     pub artifact_id: String,
@@ -96,6 +102,15 @@ impl BlobWriter {
     fn store_chunk(&mut self, chunk: Chunk) -> Result<()> {
         let chunk_key = chunk.key();
 
+        // Register the key first so the chunk is never visible without a referent
+        self.chunks.push(chunk_key.clone());
+        let mut in_flight = TensorData::new();
+        in_flight.set("_chunks", TensorValue::Pointers(self.chunks.clone()));
+        self.store.put(
+            format!("{WRITER_PREFIX}{}", self.state.artifact_id),
+            in_flight,
+        )?;
+
         // Check if chunk already exists (deduplication)
         if self.store.exists(&chunk_key) {
             // Increment reference count
@@ -123,7 +138,6 @@ impl BlobWriter {
             self.store.put(&chunk_key, tensor)?;
         }
 
-        self.chunks.push(chunk_key);
         Ok(())
     }
 
@@ -144,7 +158,7 @@ impl BlobWriter {
         let linked_to_for_idx = self.state.linked_to.clone();
         let tags_for_idx = self.state.tags.clone();
 
-        let checksum = self.hasher.finalize();
+        let checksum = std::mem::take(&mut self.hasher).finalize();
         let tensor = build_metadata_tensor(
             &mut self.state,
             &mut self.chunks,
@@ -164,7 +178,8 @@ impl BlobWriter {
             &tags_for_idx,
         )?;
 
-        Ok(self.state.artifact_id)
+        // The in-flight record is removed when `self` is dropped, after the artifact record exists
+        Ok(self.state.artifact_id.clone())
     }
 
     /// Write secondary index entries for content type, links, and tags.
@@ -204,6 +219,15 @@ impl BlobWriter {
     #[allow(clippy::missing_const_for_fn)]
     pub fn chunks_written(&self) -> usize {
         self.chunks.len()
+    }
+}
+
+impl Drop for BlobWriter {
+    fn drop(&mut self) {
+        // Finished or abandoned: either way this writer no longer holds its chunks
+        let _ = self
+            .store
+            .delete(&format!("{WRITER_PREFIX}{}", self.state.artifact_id));
     }
 }
 
